@@ -10,6 +10,8 @@ a record.  The fault-free base must run (otherwise the case is void).  A sample 
 from __future__ import annotations
 
 import copy
+
+import numpy as np
 import subprocess
 import sys
 from pathlib import Path
@@ -31,13 +33,13 @@ LEVEL_TEXT = ("Each of ~30 single faults (forcing not covering the window, frame
               "illegal subgrids) is injected into each of 8 base scenarios (quick) plus 400 random bases (thorough); the real start-up must refuse every one before the first step and write no record.")
 LEVEL_NOTE = "Single faults only. 'Refused' = SystemExit with a non-zero code or any other exception raised before the first Model.update; the fault-free base must complete, otherwise the case is void and not counted."
 RULE = ("case = (base, fault). Non-trivial: the base ran and the fault is really present in the files/configuration written (e.g. the unsorted frame times are read back); distinct by (base, fault).")
-MANDATORY = ["refused_before_first_step", "base_forward", "base_reversed", "base_multifile", "base_continuous", "subprocess_exit_status_checked", "fault_presence_verified", "fault_written_over_a_valid_setup", "base_with_legal_negative_subgrid", "subgrid_fault_with_negative_limits"]
+MANDATORY = ["forcing_files_with_different_time_units", "refused_before_first_step", "base_forward", "base_reversed", "base_multifile", "base_continuous", "subprocess_exit_status_checked", "fault_presence_verified", "fault_written_over_a_valid_setup", "base_with_legal_negative_subgrid", "subgrid_fault_with_negative_limits"]
 ASSUMPTIONS = ["single faults (no combinations)"]
 TIMEOUT = {"quick": 1200, "thorough": 3500}
 
 FAULTS = ["forcing_ends_early", "forcing_starts_late", "forcing_starts_late_substep", "forcing_ends_early_substep", "frames_unsorted_in_file", "frames_unsorted_across_files", "frame_duplicated_across_files",
           "missing_start", "missing_stop", "missing_dt", "stop_on_wrong_side", "releases_all_before_start", "releases_all_at_stop", "releases_all_after_stop", "releases_straddle_window",
-          "release_without_position", "missing_config_file", "missing_grid_file", "missing_forcing_file", "missing_release_file",
+          "release_without_position", "release_with_X_only", "release_with_Y_only", "missing_config_file", "missing_grid_file", "missing_forcing_file", "missing_release_file",
           "missing_tracker_section", "missing_time_section", "missing_release_section", "missing_output_section", "missing_forcing_section",
           "subgrid_i0_lt_1", "subgrid_i1_gt_max", "subgrid_i0_ge_i1", "subgrid_j0_lt_1", "subgrid_j1_gt_max", "subgrid_j0_ge_j1", "subgrid_i0_eq_i1",
           "subgrid_i0_far_negative", "subgrid_j0_far_negative", "subgrid_negative_i1_le_i0", "subgrid_negative_j1_le_j0", "subgrid_i1_minus_imax"]
@@ -118,6 +120,12 @@ def base_files(b: dict[str, Any], wd: Path, fault: str | None):
         phys = phys[:k] + [phys[k - 1]] + phys[k:]
         files = [k, len(phys) - k]
     w = dict(imax=16, jmax=12, N=2, t0=start, frames=[int(round(p * dt)) for p in phys], files=files, vel=dict(kind="const", u=0.05, v=0.02))
+    if len(files) > 1 and b["id"] % 8 in (3, 6):
+        # every forcing file with its own time unit and reference time (files of different model runs); the plain "seconds since 1970" file is the
+        # last one in half of these bases and the first one in the other half
+        tus = [["days since 2020-02-15 00:00:00", "hours since 2020-01-01 00:00:00", "seconds since 2020-02-01 00:00:00"][k % 3] for k in range(len(files))]
+        tus[-1 if b["id"] % 8 == 3 else 0] = "seconds since 1970-01-01 00:00:00"
+        w["time_units_per_file"] = tus
     steps = list(b["rel_steps"])
     if fault == "releases_all_before_start":
         steps = [-3, -1]
@@ -132,6 +140,12 @@ def base_files(b: dict[str, Any], wd: Path, fault: str | None):
     if fault == "release_without_position":
         cols = ["release_time", "Z"]
         rows = [[r[0], r[3]] for r in rows]
+    elif fault == "release_with_X_only":
+        cols = ["release_time", "X", "Z"]
+        rows = [[r[0], r[1], r[3]] for r in rows]
+    elif fault == "release_with_Y_only":
+        cols = ["release_time", "Y", "Z"]
+        rows = [[r[0], r[2], r[3]] for r in rows]
     rel = dict(columns=cols, rows=rows, header=True)
     if b["cont"]:
         rel.update(continuous=True, freq=b["freq"] * dt)
@@ -191,7 +205,10 @@ def one_run(b: dict[str, Any], fault: str | None, wd: Path, sub: bool):
         ts = []
         for fn in world["files"]:
             with Dataset(fn) as nc:
-                ts += list(nc.variables["ocean_time"][:])
+                tu_ = nc.variables["ocean_time"].units  # converted to seconds since 1970 with the file's own unit and reference time
+                div_ = {"seconds": 1.0, "hours": 3600.0, "days": 86400.0}[tu_.split()[0]]
+                ref_ = (np.datetime64(tu_.split("since")[1].strip().replace(" ", "T"), "s") - np.datetime64("1970-01-01T00:00:00", "s")) / np.timedelta64(1, "s")
+                ts += [float(np.round(float(x) * div_ + ref_, 3)) for x in nc.variables["ocean_time"][:]]
         if fault.startswith("frames_unsorted"):
             present = any(b2 < a for a, b2 in zip(ts, ts[1:]))
         elif fault == "frame_duplicated_across_files":
@@ -246,6 +263,7 @@ def run_case(case: dict[str, Any], wd: Path) -> dict[str, Any]:
     sit["base_reversed" if b["reversed"] else "base_forward"] = 1
     sit["base_multifile"] = int(b["multi"])
     sit["base_continuous"] = int(b["cont"])
+    sit["forcing_files_with_different_time_units"] = int(b["multi"] and b["id"] % 8 in (3, 6))
     sit["base_with_legal_negative_subgrid"] = int(b["id"] % 2 == 1 and not fault.startswith("subgrid"))
     sit["subgrid_fault_with_negative_limits"] = int("negative" in fault or "minus" in fault)
     res, nupd, nwrite, nrec, present, status = one_run(copy.deepcopy(b), fault, wd / ("run" if shared else "fault"), case["subprocess"])
